@@ -16,7 +16,7 @@ BUDGET = {"quick": 50, "thorough": 900}
 RULE = (
     "1-4 routers with seeded (name, queue) registrations from small alphabets (3 names x 2 queues: overrides inside a router, "
     "the same name on two queues, shared queues), 1-2 workers built from subsets of the routers on the same or different nodes, "
-    "3-14 jobs whose (name, queue) match a running worker, only another worker, or nobody, interleaved in shared queues (no "
+    "3-14 jobs (a quarter of them deferred until one common instant) whose (name, queue) match a running worker, only another worker, or nobody, interleaved in shared queues (no "
     "TTL). Each registered function is a distinct marker. Oracle: worker.actors == right-biased union of its routers; a job is "
     "executed exactly once, by the function the reference resolution gives (last registration of the name, and only if that "
     "actor's queue is the job's queue); jobs foreign to every running worker are never executed, acked or dead-lettered, keep "
@@ -43,8 +43,10 @@ def gen(rng, broker, tier):
     jobs = []
     for i in range(rng.randint(3, 14 if broker == "mem" else 9)):
         jobs.append({"id": f"j{i}", "name": rng.choice(NAMES), "queue": rng.choice(QUEUES), "prio": rng.choice([5, 5, 0, 9]),
-                     "at_us": rng.choice([0, 0, 0, rng.randint(0, 300_000)])})
-    return {"routers": routers, "workers": workers, "jobs": jobs,
+                     "at_us": rng.choice([0, 0, 0, rng.randint(0, 300_000)]),
+                     # several jobs (own and foreign ones) deferred until exactly the same instant
+                     "delayed": rng.random() < 0.25})
+    return {"routers": routers, "workers": workers, "jobs": jobs, "until_us": rng.choice([400_000, 1_200_000]),
             "knobs": {"step_cost": rng.choice([0, 0, 1, "rand"]),
                       "net": {"lat_lo": 50, "lat_hi": rng.choice([300, 3000]), "frag_p": rng.choice([0, 0.1])}}}
 
@@ -110,14 +112,18 @@ async def _main(sim, sc, out):
 
     from repid.data._key import RoutingKey
 
+    from datetime import timedelta as _td
+
     async def produce():
         t0 = sim.clock.us
+        until = sim.clock.now() + _td(microseconds=sc.get("until_us", 400_000))
         for j in sorted(sc["jobs"], key=lambda x: x["at_us"]):
             wait = t0 + j["at_us"] - sim.clock.us
             if wait > 0:
                 await asyncio.sleep(wait / 1e6)
+            kw = {"deferred_until": until} if j.get("delayed") else {}
             job = r.Job(j["name"], queue=j["queue"], priority=r.PrioritiesT(j["prio"]), id_=j["id"], args={"jid": j["id"]},
-                        store_result=False, _connection=world.conn("p"))
+                        store_result=False, _connection=world.conn("p"), **kw)
             _, _, params = await job.enqueue()
             j["_params"] = params_snapshot(params)
 
@@ -174,7 +180,7 @@ async def _main(sim, sc, out):
                     id=j["id"], name=j["name"], queue=j["queue"], ran=reg))
                 continue
             ps = insp.get(j["id"], [])
-            if len(ps) != 1 or ps[0]["place"] != "waiting":
+            if len(ps) != 1 or ps[0]["place"] not in (("waiting", "delayed") if j.get("delayed") else ("waiting",)):
                 V.append(violation("foreign-job-moved", f"C11/{b}/foreign-job-in-{place_summary(insp, j['id'])}", id=j["id"]))
             elif ps[0]["params"] != j.get("_params"):
                 V.append(violation("foreign-job-changed", f"C11/{b}/foreign-job-parameters-changed", id=j["id"]))
@@ -182,7 +188,8 @@ async def _main(sim, sc, out):
                 V.append(violation("foreign-job-disposed", f"C11/{b}/foreign-job-acked-or-nacked", id=j["id"]))
     # the owner of the leftovers, started afterwards, executes each exactly once
     executed_foreign = {x[1] for x in ran}
-    todo = [j for j in foreign_left if j["id"] not in executed_foreign and place_summary(insp, j["id"]) == "waiting"]
+    todo = [j for j in foreign_left if j["id"] not in executed_foreign and place_summary(insp, j["id"]) in (
+        ("waiting", "delayed") if j.get("delayed") else ("waiting",))]
     pairs = sorted({(j["name"], j["queue"]) for j in todo})
     for (name, queue) in pairs:
         rt = r.Router()
